@@ -278,7 +278,7 @@ namespace
           r.ctx = "level " + vm::str(lvl - 1) + "->" + vm::str(lvl) + " part '" + p.first + "'";
           vm::check_part_refinement(C, F, ri, p.second, it->second, r, w);
           if(p.second.attr.count("coord")) check_attr(F, it->second, qtot, r, w);
-          if(p.second.attr.count("param")) check_param(it->second, r, w);
+          if(p.first == "loop") check_param(it->second, r, w);
           c.count("part_refinements_checked");
         }
         // computed boundary == facets with one adjacent cell
